@@ -15,8 +15,8 @@ void vk_free(void *p);
 #define CAP 4096
 enum { EM_PIPE, EM_MERGED, EM_PARENT, NEM };
 static const char *const em_names[] = { "pipe", "stdout", "parent" };
-static const char *const d_scripts[] = { "W1:%d W2:5 X3", "W1:%d W2:5 W1:3 C1 W2:7 C2 X0", "W2:5 C2 W1:%d C1 X5", "C1 W2:%d X0", "X0", "W1:%d W1:%d X1" };
-#define NDS 6
+static const char *const d_scripts[] = { "W1:%d W2:5 X3", "W1:%d W2:5 W1:3 C1 W2:7 C2 X0", "W2:5 C2 W1:%d C1 X5", "C1 W2:%d X0", "X0", "W1:%d W1:%d X1", "W1:%d W2:9000 W1:1 X2" };
+#define NDS 7
 static const int d_sizes[2][6] = { { 0, 1, CAP, 9000, -1, -1 }, { 0, 1, CAP - 1, CAP, CAP + 1, 9000 } };
 static const int d_nsizes[2] = { 4, 6 };
 enum { SM_REC, SM_FAILNEG, SM_FAILPOS, SM_STR_NULL, SM_STR_PRE, SM_STR_SAME, NSM };
@@ -131,6 +131,12 @@ static void body(const struct dcfg *c, int tier)
   vk_cfg.total_bound = tier ? 3 : 2;
   vk_cfg.vlimit = 24;
   vk_cfg.hello_lite = 1;
+  if (c->deadline) {
+    /* while a call is blocked without an OS timeout, time may pass too: 0 or 5 ms (past every deadline used here) */
+    vk_cfg.elapsed_inf_n = 2;
+    vk_cfg.elapsed_inf[0] = 0;
+    vk_cfg.elapsed_inf[1] = 5;
+  }
   if (c->realloc_fault) {
     vk_cfg.faults_on = 1;
     vk_cfg.fault_bound = 1;
@@ -212,6 +218,18 @@ static void body(const struct dcfg *c, int tier)
 
   int out_pipe = 1, err_pipe = em == EM_PIPE;
   int64_t D = c->deadline ? t0 + c->deadline : INT64_MAX;
+  /* whatever drain is waiting in, it must not still be waiting there once the deadline has passed */
+  if (c->deadline) {
+    for (int i = 0; i < S->nevents; i++) {
+      struct vk_event *e = &S->ev[i];
+      if (e->api != drain_api || e->side != 0 || !e->blocked) continue;
+      if (e->t + e->blocked_ms > D) {
+        vk_violation("C16", "blocked-past-deadline", key, "inside drain/run a %s call entered at +%lld ms stayed blocked for %d ms, past the deadline at +%d ms", vk_call_names[e->call],
+                     (long long) (e->t - t0), e->blocked_ms, c->deadline);
+        break;
+      }
+    }
+  }
 
   if (c->sm < SM_STR_NULL) {
     /* protocol over the recorded calls */
@@ -349,7 +367,7 @@ static void build(void)
                   int size = has_size ? d_sizes[tier][si] : 0;
                   if (!tier && api == API_RUNEX && (sm == SM_FAILPOS || k > 1)) continue;
                   /* every blocked poll under a deadline has one alternative per elapsed millisecond: keep that product to small payloads in the quick tier */
-                  if (!tier && deadline && (size > 1 || sm == SM_FAILPOS || sm == SM_STR_NULL || k > 1)) continue;
+                  if (!tier && deadline && ((size > 1 && !(size == CAP && sm == SM_REC)) || sm == SM_FAILPOS || sm == SM_STR_NULL || k > 1)) continue;
                   if (!tier && size > CAP && (sm == SM_FAILNEG || sm == SM_FAILPOS) && k > 2) continue;
                   for (int rf = 0; rf < (sm >= SM_STR_NULL ? 2 : 1); rf++) {
                     if (rf && size > CAP + 1) continue; /* growth steps of large strings are the same code path */
